@@ -58,9 +58,9 @@ func gen(t *rapid.T) Case {
 			c.Scopes = append(c.Scopes, s)
 		}
 	}
-	tr := []string{"tcp", "tls", "websocket"}
+	tr := []string{"tcp", "tcp", "tls", "websocket", "quic"}
 	if fx.Thorough() {
-		tr = append(tr, "kcp", "quic")
+		tr = append(tr, "kcp")
 	}
 	c.Transport = rapid.SampledFrom(tr).Draw(t, "transport")
 	c.TCPMux = rapid.Bool().Draw(t, "tcpmux")
